@@ -1081,6 +1081,37 @@ def vc_closest_match_space(fns, variants, work):
                      work, "c12m", witness_ok=ok_w, witness_note="expected both ranges, an exhausted return and a match return: %r" % reached)
 
 
+def vc_rename_has_both_names(fns, variants, work):
+    """build_filepatch: a FilePatch is only ever marked as a rename when both file names are real (not absent, not /dev/null).
+    The consumers of is_rename() (choose_filename_to_patch, ModifiedFiles::rollback, the distributor) unwrap both names."""
+    fn = find_fn(fns, r"::build_filepatch$")
+    found, reached = [], [0]
+
+    def real(eng, st, k):
+        d = eng.read_path(st, "_1.%d#disc" % k, "isize")
+        dp = eng.read_path(st, "_1.%d@Some.0#disc" % k, "isize")
+        return z3.And(d == 1, dp == 0)
+
+    def on_call(eng, st, bb, site, stmt, dst, callee, args, nxt):
+        if re.search(r"FilePatchBuilder::<.*>::is_rename$", callee):
+            reached[0] += 1
+            b, _, _ = eng.operand(st, args[1])
+            if b is None or not z3.is_bool(b):
+                found.append({"bb": bb, "stmt": stmt[:160], "what": "the rename flag is not a function of the metadata", "model": {}, "trace": []})
+                return None
+            c = z3.And(b, z3.Not(z3.And(real(eng, st, 0), real(eng, st, 1))))
+            ok, model = eng.feasible(st, [c])
+            eng.record_query("%s rename without both names" % bb, list(st.pc) + [c])
+            if ok:
+                found.append({"bb": bb, "stmt": stmt[:160], "what": "a file patch is marked as a rename although one of its names is missing or /dev/null (the consumers unwrap both)",
+                              "model": model_values(model, ("in_",)), "trace": list(st.trace[-12:])})
+        return None
+
+    eng = Engine(fns, fn, variants, hooks={"on_call": on_call})
+    eng.run()
+    return summarize(eng, found, {"is_rename_sites_reached": reached[0]}, work, "c11r", witness_ok=reached[0] > 0, witness_note="is_rename call not reached")
+
+
 def vc_unsafe_component_table(fns, variants, work):
     """is_unsafe's closure: a component is dangerous iff it is a Prefix, the root or '..' (std::path::Component's declaration
     order Prefix, RootDir, CurDir, ParentDir, Normal is the trusted fact behind the discriminant numbers)."""
